@@ -12,7 +12,7 @@ import ast
 
 import emit
 import mtypes
-from symexec import (Sc, Bo, Si, Obj, SList, Undefined, Unsupported, Frame, is_num, to_sc,
+from symexec import (Sc, Bo, Si, Obj, SList, SDict, Undefined, Unsupported, Frame, is_num, to_sc,
                      to_bo, _Return, _Break, _Continue, _NeedFork, PyRaise, Leaf, Let,
                      Branch)
 
@@ -56,6 +56,13 @@ def list_term(le):
         return '([%s] : %s)' % (', '.join(le[1]), le[2])
     if k == 'lzipidx':
         return '(List.zipIdx %s)' % list_term(le[1])
+    if k == 'lrotate':
+        lt = list_term(le[2])
+        return '(List.rotate %s (Int.toNat (%s %% ((%s).length : Int))))' % (lt, le[1], lt)
+    if k == 'lirange':
+        # Python range(a, n): a, a+1, ..., n-1 as integers
+        return '(List.map (fun (n_ : Nat) => (n_ : Int)) (List.range\' %d (Int.toNat (%s - (%d : Int)))))' % (
+            le[1], le[2], le[1])
     if k in ('ldropi', 'ltakei'):
         # Python slice bound k on a list of length n: negative counts from the end, values
         # outside the range are clamped (List.drop / List.take clamp at n, Int.toNat at 0)
@@ -63,6 +70,11 @@ def list_term(le):
         return '(List.%s (Int.toNat (if %s < (0 : Int) then ((%s).length : Int) + %s else %s)) %s)' % (
             'drop' if k == 'ldropi' else 'take', le[1], lt, le[1], le[1], lt)
     raise Unsupported('list expr %r' % (le,))
+
+
+def to_si_(v):
+    from symexec import to_si
+    return to_si(v)
 
 
 def _V2():
@@ -458,7 +470,7 @@ class _NeedErr(Exception):
 
 
 def _is_simple_list(le):
-    return le[0] == 'lvar' or (le[0] in ('ldrop', 'ltake') and le[2][0] == 'lvar') or \
+    return le[0] in ('lvar', 'lirange') or (le[0] in ('ldrop', 'ltake') and le[2][0] == 'lvar') or \
         (le[0] in ('ldroplast', 'lrev') and le[1][0] == 'lvar')
 
 
@@ -550,7 +562,8 @@ def sym_index_v2(frame, L, i, e):
                 if state['depth'] != 'succ':
                     raise _NeedDepth('succ')
                 return elem_input(index, pp_name + ('.1' if i.off == 0 else '.2'), L)
-            raise Unsupported('symbolic index into a different list')
+            # the index of one list used on another one: treat it as a number
+            raise _NeedIndexValue()
         if i.off not in (0, -1, -2):
             raise Unsupported('symbolic index offset %d' % i.off)
         if state['depth'] == 'succ':
@@ -574,8 +587,19 @@ def sym_index_v2(frame, L, i, e):
         # L[k] with a symbolic integer: Python raises IndexError unless -n <= k < n
         L = bound_list(I, L)
         lt = list_term(L.le)
+        inb = _index_in_bounds(I, i.e, lt, len_lb(I, L.le))
         k = I.name_value(i, 'k')
         kt = emit.sexpr(k.e)
+        if inb == 'nonneg':
+            # 0 <= k < len(L) follows from the bounds of the enclosing loop
+            dflt = _default_term(L.elem)
+            return elem_input(index, '(%s.getD (Int.toNat %s) %s)' % (lt, kt, dflt), L, I)
+        if inb == 'wrap':
+            # -len(L) <= k < len(L): no IndexError, a negative k counts from the end
+            dflt = _default_term(L.elem)
+            return elem_input(index, '(%s.getD (Int.toNat (if %s < (0 : Int) then '
+                                     '((%s).length : Int) + %s else %s)) %s)' % (
+                                         lt, kt, lt, kt, kt, dflt), L, I)
         _raise_if(I, ('rawprop', '(%s < -((%s).length : Int) ∨ ((%s).length : Int) ≤ %s)' % (
             kt, lt, lt, kt)), 'IndexError')
         dflt = _default_term(L.elem)
@@ -654,6 +678,84 @@ def sym_index_v2(frame, L, i, e):
                 raise Unsupported('slice lower bound %d' % lo)
         return SList(le, L.elem, L.pycls)
     raise Unsupported('index %r into symbolic list' % (i,))
+
+
+def _lin(e, defs=None):
+    """Integer expression as (variable term or None, constant)."""
+    if e[0] == 'ilit':
+        return (None, e[1])
+    if e[0] == 'ivar':
+        if defs and e[1] in defs:
+            return _lin(defs[e[1]], defs)
+        return (e[1], 0)
+    if e[0] in ('iadd', 'isub'):
+        a, b = _lin(e[1], defs), _lin(e[2], defs)
+        if a is None or b is None:
+            return None
+        if b[0] is None:
+            return (a[0], a[1] + (b[1] if e[0] == 'iadd' else -b[1]))
+        if a[0] is None and e[0] == 'iadd':
+            return (b[0], a[1] + b[1])
+    return None
+
+
+def _index_in_bounds(I, e, lt, lb=0):
+    """'nonneg' when the integer expression e is provably a valid non-negative index of the
+    list with term lt, 'wrap' when it is provably in [-len, len) (Python's negative indices
+    wrap), False when neither is known.  Known: e = i + c where i ranges over
+    range(a, len(lt) - k) (registered by the enclosing loop);  literals against the known
+    lower bound `lb` of the length;  `x + 1 if x != len - 1 else 0` (cyclic successor)."""
+    if not getattr(I, 'v3', False):
+        return False        # (kernels of the second generation keep their emitted text)
+    len_t = '((%s).length : Int)' % lt
+    e = _expand_int(e, I.int_defs)
+    if e[0] == 'iite':
+        a, b = _index_in_bounds(I, e[2], lt, lb), _index_in_bounds(I, e[3], lt, lb)
+        c = e[1]
+        if not a and c[0] == 'not' and c[1][0] == 'eq':
+            # under x != m with m = len - 1 and x in [lo, len): x + 1 < len
+            x, m = _lin(c[1][1], I.int_defs), _lin(c[1][2], I.int_defs)
+            t = _lin(e[2], I.int_defs)
+            if x and m and t and x[0] is not None and m == (len_t, -1) and \
+                    t == (x[0], x[1] + 1):
+                rb = I.len_lower.get(('range', x[0]))
+                if rb is not None:
+                    hl = _lin(rb[1], I.int_defs)
+                    if hl == (len_t, 0) and rb[0] + x[1] + 1 >= 0:
+                        a = 'nonneg'
+        if a and b:
+            return 'nonneg' if (a == 'nonneg' and b == 'nonneg') else 'wrap'
+        return False
+    ln = _lin(e, I.int_defs)
+    if ln is None:
+        return False
+    if ln[0] is None:
+        if 0 <= ln[1] < lb:
+            return 'nonneg'
+        if -lb <= ln[1] < 0:
+            return 'wrap'
+        return False
+    b = I.len_lower.get(('range', ln[0]))
+    if b is None:
+        return False
+    lo, hi = b
+    hl = _lin(hi, I.int_defs)
+    if hl is None or hl[0] != len_t:
+        return False
+    k = -hl[1]
+    if ln[1] > k:
+        return False
+    if lo + ln[1] >= 0:
+        return 'nonneg'
+    if lo + ln[1] >= -lb:
+        return 'wrap'
+    return False
+
+
+def _expand_int(e, defs, depth=0):
+    if e[0] == 'ivar' and e[1] in defs and depth < 8:
+        return _expand_int(defs[e[1]], defs, depth + 1)
+    return e
 
 
 def _item_term(I, L, v):
@@ -744,9 +846,113 @@ def slist_method(frame, r, n, args, kwargs):
     if n == 'reverse' and not args:
         r.le = ('lrev', r.le)
         return None
+    if n == 'rotate' and len(args) == 1 and getattr(r, 'is_deque', False):
+        # deque.rotate(n): right by n; = left by (-n) mod len
+        a = args[0]
+        if not (isinstance(a, Si) or (isinstance(a, int) and not isinstance(a, bool))):
+            raise Unsupported('deque.rotate(%r)' % (a,))
+        b = bound_list(I, r)
+        at = emit.sexpr(I.name_value(Si(('ineg', to_si_(a))), 'rot').e)
+        r.le = ('lrotate', at, b.le)
+        return None
     if n == 'copy' and not args:
         return SList(r.le, r.elem, r.pycls)
     raise Unsupported('method %s of a symbolic list' % n)
+
+
+def store_v3(frame, target, c, i, v):
+    """`d[key] = value` on a dict with symbolic keys;  `L[a:b] = items` on a symbolic list."""
+    I = frame.I
+    index = I.index
+    if I.spec_starts:
+        raise _NeedFork()
+    if isinstance(c, dict):
+        # an empty python dict receiving its first symbolic key: it must be a local name
+        if not isinstance(target.value, ast.Name):
+            raise Unsupported('symbolic key stored into a dict that is not a local name')
+        c = SDict(SList(('llit', [], None), None, None))
+        frame.env[target.value.id] = c
+    if isinstance(c, SDict):
+        if not isinstance(i, (Sc, Si)) and not is_num(i):
+            raise Unsupported('dict key %r' % (i,))
+        if isinstance(v, list):
+            raise Unsupported('mutable list stored as a dict value')
+        pr = c.pairs
+        if pr.le == ('llit', [], None):
+            kd = ('tup', elem_kind(i, index), elem_kind(v, index))
+            pr.elem, pr.pycls = kd, (None, _class_of_v2(v))
+            pr.le = ('llit', [], mtypes.lean_type(('list', kd)))
+            holder = getattr(pr, 'holder', None)
+            if holder is not None:
+                holder['elem'], holder['pycls'] = pr.elem, pr.pycls
+        pr.le = ('lsnoc', pr.le, _item_term(I, pr, (i, v)))
+        return None
+    # slice assignment on a symbolic list
+    if not isinstance(i, slice) or i.step not in (None, 1):
+        raise Unsupported('item assignment on a symbolic list')
+    if isinstance(v, (list, tuple)):
+        ins = SList(('llit', [], mtypes.lean_type(('list', c.elem))), c.elem, c.pycls)
+        for x in v:
+            ins.le = ('lsnoc', ins.le, _item_term(I, ins, x))
+    elif isinstance(v, SList):
+        ins = v
+        if mtypes.parse_type(ins.elem) != mtypes.parse_type(c.elem):
+            raise Unsupported('slice assignment with items of another kind')
+    else:
+        raise Unsupported('slice assignment of %r' % (v,))
+    lo = i.start if i.start is not None else 0
+    hi = i.stop
+    b = bound_list(I, c)
+
+    def bt(x):
+        if isinstance(x, Si):
+            return emit.sexpr(I.name_value(x, 'k').e)
+        if isinstance(x, int) and not isinstance(x, bool):
+            return '(%d : Int)' % x if x >= 0 else '(-%d : Int)' % (-x)
+        raise Unsupported('slice bound %r' % (x,))
+    head = ('ltakei', bt(lo), b.le)
+    if hi is None:
+        c.le = ('lappend', head, ins.le)
+        return None
+    # Python: L[lo:hi] = ins replaces L[lo:max(lo, hi)]
+    same = (isinstance(lo, Si) and isinstance(hi, Si) and lo.e == hi.e) or \
+        (not isinstance(lo, Si) and not isinstance(hi, Si) and lo == hi)
+    if not same:
+        raise Unsupported('slice assignment that replaces items')
+    c.le = ('lappend', ('lappend', head, ins.le), ('ldropi', bt(lo), b.le))
+    return None
+
+
+def sdict_lookup(frame, d, k):
+    I = frame.I
+    index = I.index
+    pr = bound_list(I, d.pairs)
+    if pr.elem is None:
+        raise PyRaise('KeyError')
+    lt = list_term(pr.le)
+    kt = emit.sexpr(to_sc(I.name_value(k, 'key') if isinstance(k, (Sc, Si)) else k))
+    nm = I.fresh('hits')
+    I.trace.append(('let', nm, 'raw', '(List.filter (fun p_ => decide (p_.1 = %s)) %s)' % (kt, lt)))
+    _raise_if(I, ('rawprop', '(%s = [])' % nm), 'KeyError')
+    vk = mtypes.parse_type(pr.elem)[2]
+    vcls = pr.pycls[1] if isinstance(pr.pycls, tuple) else None
+    it = I.fresh('item')
+    I.trace.append(('let', it, 'raw', '(%s.getLastD %s).2' % (nm, _default_term(pr.elem))))
+    return mtypes.make_input(index, it, vk, vcls)
+
+
+def sdict_method(frame, d, n, args, kwargs):
+    I = frame.I
+    pr = d.pairs
+    if n == 'keys' and not args:
+        if pr.elem is None:
+            return []
+        b = bound_list(I, pr)
+        nm = I.fresh('keys')
+        I.trace.append(('let', nm, 'raw', '(List.map (fun p_ => p_.1) %s)' % list_term(b.le)))
+        I.len_lower[nm] = len_lb(I, b.le)
+        return SList(('lvar', nm), mtypes.parse_type(pr.elem)[1], None)
+    raise Unsupported('method %s of a dict with symbolic keys' % n)
 
 
 def sym_minmax(frame, name, L):
@@ -926,6 +1132,10 @@ def _template(I, v, name, body, mutated):
     if v is None:
         # starts as None, may receive a value: `Option τ`, τ found from the assignments
         return _Tpl('optacc', holder={'kind': None, 'pycls': None})
+    if getattr(I, 'v3', False) and (isinstance(v, SDict) or (isinstance(v, dict) and not v)):
+        pr = v.pairs if isinstance(v, SDict) else None
+        return _Tpl('sdict', holder={'elem': pr.elem if pr else None,
+                                     'pycls': pr.pycls if pr else None})
     raise Unsupported('loop-carried value of unsupported kind: %r' % (v,))
 
 
@@ -939,6 +1149,10 @@ def _tpl_leaves(t):
 
 
 def _tpl_kind(t):
+    if t.kind == 'sdict':
+        if t.holder['elem'] is None:
+            raise Unsupported('dict accumulator that never receives an item')
+        return ('list', mtypes.parse_type(t.holder['elem']))
     if t.kind == 'optacc':
         if t.holder['kind'] is None:
             raise Unsupported('accumulator that starts as None and never receives a value')
@@ -956,6 +1170,13 @@ def _tpl_input(I, t, terms):
     if t.kind == 'seq':
         return t.seqtype(_tpl_input(I, s, terms) for s in t.sub)
     term = terms.pop(0)
+    if t.kind == 'sdict':
+        L = SList(('lvar', term), t.holder['elem'], t.holder['pycls'])
+        L.holder = t.holder
+        if t.holder['elem'] is None:
+            L.le = ('llit', [], None)      # nothing stored yet on this exploration
+            L.pending = term
+        return SDict(L)
     if t.kind == 'optacc':
         from symexec import SOpt
         o = SOpt(term, t.holder['kind'])
@@ -975,6 +1196,22 @@ def _tpl_output(I, t, v, out):
             raise Unsupported('fixed-size sequence accumulator changes its length')
         for s, x in zip(t.sub, v):
             _tpl_output(I, s, x, out)
+        return
+    if t.kind == 'sdict':
+        if isinstance(v, dict) and not v:
+            out.append([])
+            return
+        if not isinstance(v, SDict):
+            raise Unsupported('dict accumulator rebound to %r' % (v,))
+        pr = v.pairs
+        if t.holder['elem'] is None and pr.elem is not None:
+            # the kind of the items became known during this run: explore again with it
+            t.holder['elem'], t.holder['pycls'] = pr.elem, pr.pycls
+            raise _RestartLoop()
+        if pr.elem is None:
+            out.append([])
+            return
+        out.append(pr)
         return
     if t.kind == 'optacc':
         from symexec import SOpt
@@ -1102,6 +1339,18 @@ def _iter_parts(st_target, it):
 def _cur_term(pp_name, depth):
     return {0: pp_name, 1: pp_name + '.2', 2: pp_name + '.2.2', 'succ': pp_name + '.1',
             'idx': pp_name + '.1'}[depth]
+
+
+def _body_facts(I, L, pp_name, depth):
+    """Facts that hold inside the body of a loop over L: L has an element; in index-value
+    mode the index lies in [0, len(L))."""
+    if not getattr(I, 'v3', False):
+        return
+    if L.le[0] == 'lvar':
+        I.len_lower[L.le[1]] = max(I.len_lower.get(L.le[1], 0), 1)
+    if depth == 'idx':
+        I.len_lower[('range', '((%s.2 : Nat) : Int)' % pp_name)] = (
+            0, ('ivar', '((%s).length : Int)' % list_term(L.le)))
 
 
 def _idx_value(pp_name, depth, key):
@@ -1245,6 +1494,10 @@ def exec_sym_for_v2(frame, st, it):
         state = {'depth': depth}
         cur = _cur_term(pp_name, depth)
         fr.assign(el_target, elem_input(index, cur, L))
+        if getattr(L, 'range_bounds', None) is not None:
+            # the loop variable of `for i in range(a, n)`: a <= i < n on this path
+            I.len_lower[('range', cur)] = L.range_bounds
+        _body_facts(I, L, pp_name, depth)
         if idx_name is not None:
             env[idx_name] = _idx_value(pp_name, depth, key)
         I.sym_lists[id(key)] = (L, key, pp_name, state, Lorig)
@@ -1322,7 +1575,10 @@ def exec_sym_for_v2(frame, st, it):
             elif node.value[0] == 'return':
                 v = node.value[1]
                 if v is None:
-                    raise Unsupported('`return None` inside a loop over a symbolic list')
+                    # `return None`: a constant; the state only records that it happened
+                    if not any(c is None for c in rconst):
+                        rconst.append(None)
+                    return
                 if isinstance(v, (bool, int)) and not any(
                         type(c) is type(v) and c == v for c in rconst):
                     rconst.append(v)
@@ -1341,8 +1597,10 @@ def exec_sym_for_v2(frame, st, it):
     scan_leaves(tree)
     errs.sort()
     multi_err = len(errs) > 1     # then the `raised` flag is an Int code (1-based)
+    if any(c is None for c in rconst) and len(rconst) > 1:
+        raise Unsupported('loop returns None on some paths and values on others')
     if 'ret' in ctl and rkind[0] is None:
-        # a `return` that is never reached: drop the component's payload to Bool
+        # a `return` that is never reached, or `return None`: the payload is a dummy Bool
         rkind[0] = 'B'
     kinds = []
     for c in ctl:
@@ -1357,7 +1615,7 @@ def exec_sym_for_v2(frame, st, it):
         head = []
         for c in ctl:
             if c == 'ret':
-                head.append(val if status == 'return' else None)
+                head.append((True if val is None else val) if status == 'return' else None)
             elif c == 'brk':
                 head.append(status == 'break')
             elif multi_err:
@@ -1516,6 +1774,9 @@ def sym_comprehension_v2(frame, e, it):
         state = {'depth': depth}
         cur = _cur_term(pp_name, depth)
         fr.assign(el_target, elem_input(index, cur, L))
+        if getattr(L, 'range_bounds', None) is not None:
+            I.len_lower[('range', cur)] = L.range_bounds
+        _body_facts(I, L, pp_name, depth)
         if idx_name is not None:
             env[idx_name] = _idx_value(pp_name, depth, key)
         I.sym_lists[id(key)] = (L, key, pp_name, state, Lorig)
